@@ -148,7 +148,7 @@ func runC04(x *Exec) {
 			victim = writers[0]
 			w.Solo(victim, func() {
 				t := m.Tables[victim.Name]
-				if p.Pre == "refresh" {
+				if p.Pre == "refresh" || p.Kind == "vacuum" { // vacuum refuses while other writers' versions are unmerged
 					if _, verr = victim.Query("select s3db_refresh(?)", t); verr != nil {
 						return
 					}
